@@ -1,5 +1,5 @@
 From Coq Require Import ExtrOcamlBasic.
-From ChibiV Require Import Common.ExtractBase C08.Datum Gen.C08_Leaf C08.Write C08.Read C08.Labels C08.Model3 C08.FloProofs C08.Numbers.
+From ChibiV Require Import Common.ExtractBase C08.Datum Gen.C08_Leaf C08.Write C08.Read C08.Labels C08.Model3 C08.FloSpec C08.Numbers.
 Extraction "model.ml" ext_base write write_nat write_symbol write_string write_char sym_needs_bars
   read_top read_raw sexp_decode_utf8_char utf8_encode
   read_labels wr g2l fill
